@@ -540,13 +540,25 @@ func (e *Engine) fork(c *Term) bool {
 		e.model, e.modelOK = tM, tOK == "sat" && tM != nil
 		return true
 	case tFeas:
-		e.trace = append(e.trace, Decision{Choice: 1, N: 2, Forced: true, Kind: 'b'})
+		// the condition is implied by the path condition only if the other
+		// side is unsat; if it was cut as undecided the condition is a new
+		// constraint of this path
+		forced := fOK == "unsat"
+		e.trace = append(e.trace, Decision{Choice: 1, N: 2, Forced: forced, Kind: 'b'})
 		e.pos++
+		if !forced {
+			e.pc = append(e.pc, c)
+			e.model, e.modelOK = tM, tM != nil
+		}
 		return true
 	case fFeas:
-		e.trace = append(e.trace, Decision{Choice: 0, N: 2, Forced: true, Kind: 'b'})
+		forced := tOK == "unsat"
+		e.trace = append(e.trace, Decision{Choice: 0, N: 2, Forced: forced, Kind: 'b'})
 		e.pos++
-		_ = fM
+		if !forced {
+			e.pc = append(e.pc, nc)
+			e.model, e.modelOK = fM, fM != nil
+		}
 		return false
 	}
 	if (tOK != "sat" && tOK != "unsat") || (fOK != "sat" && fOK != "unsat") {
